@@ -225,7 +225,43 @@ from pyvc.filemodel import s_encode, b_decode, b_is_utf8
 COLL = "molli.storage.collection:Collection"
 
 
-def session_state(V, pending, bufsize_kind="sym"):
+@P.unit(f"{UKV}.open", name="reopen of a clean file: header fields and every record read back (any header sizes, incl. an empty comment / descriptor block)",
+        functions=[f"{UKV}.open", f"{UKV}.read_header", f"{UKV}._unpack_read", f"{UKV}._bof", f"{UKV}.map_blocks"])
+def _reopen(V):
+    I, st = V.I, V.st
+    FM.use_theory(st)
+    U.install_open_hook(st)
+    U.install_map_blocks_spec(I)
+    cell = FM.new_file_cell(I, "F")
+    F = bz(cell.fields["content"])
+    H1, H2, B0, bof = U.file_with_header(V, cell)
+    mode = V.choose(["r", "a"], "mode")
+    empty = V.choose(["any", "empty-descriptor", "empty-comment", "both-empty"], "header")
+    if empty in ("empty-descriptor", "both-empty"):
+        V.assume(blen(B0) == 0)
+    if empty in ("empty-comment", "both-empty"):
+        V.assume(blen(H2) == 0)
+    h = U.mk_handle(V, cell, mode=mode, closed=True, name="h")
+    ch = Chain(st, "c")
+    V.assume(ch.wf(F, bof))
+    V.assume(ch.P[ch.n] == blen(F))
+    h.fields["_toc"] = U.empty_toc(I)
+    h.fields["_eof"] = None
+    h.fields["_last"] = None
+    st.ghost["mb"] = {"ch": ch, "F": F, "bof": bof, "m": z3.IntVal(0), "mode": "chain"}
+    V.witness(lambda ev: {"op": "reopen-header", "h2len": ev(blen(H2)), "b0len": ev(blen(B0)), "n": ev(ch.n), "mode": mode, "signature": "reopen-header"})
+    V.cover()
+    out = V.method(h, "open", [mode], qual=f"{UKV}.open")
+    V.ensure("reopen/no-exception", z3.BoolVal(out.returned))
+    if not out.returned:
+        return
+    F2 = bz(cell.fields["content"])
+    V.ensure("reopen/headers-read-back", z3.And(bz(h.fields["h2"]) == H2, bz(h.fields["b0"]) == B0, bz(h.fields["h1"]) == FM.pad16(H1)))
+    V.ensure("reopen/file-unchanged", F2 == F)
+    post_indexed(V, h, F2, ch, bof, label="reopen")
+
+
+def session_state(V, pending, bufsize_kind="sym", doomed=None):
     """a UkvCollectionBackend inside a writing() session: handle open for append and Sync, _keys = decode(dom toc) + queued keys"""
     I, st = V.I, V.st
     cell, h, F, ch, bof = pre_sync(V, "a", name="h")
@@ -240,10 +276,22 @@ def session_state(V, pending, bufsize_kind="sym"):
     queued = lambda sz: z3.Or(*[sz == kv[0].z for kv in items]) if items else z3.BoolVal(False)
     S = b.fields["_keys"].has
     V.assume(z3.ForAll([s], S[s] == z3.Or(t.has[s_encode(s)], queued(s))))
-    # queued writes are ones that will succeed: new, pairwise distinct keys of legal size
+    # queued writes are ones that will succeed: new, pairwise distinct keys of legal size -- except the `doomed` one
+    # (doomed = (index, why): a duplicate of a key on file, a duplicate of the write queued before it, or an oversize key)
     for n, (qk, qv) in enumerate(items):
+        if doomed is not None and doomed[0] == n:
+            why = doomed[1]
+            if why == "dup-file":
+                V.assume(z3.And(t.has[s_encode(qk.z)], blen(s_encode(qk.z)) < 256, blen(qv.z) < 2 ** 32))
+            elif why == "dup-queue":
+                V.assume(z3.And(qk.z == items[n - 1][0].z, blen(qv.z) < 2 ** 32, qv.z != items[n - 1][1].z))
+            else:
+                V.assume(z3.And(z3.Not(t.has[s_encode(qk.z)]), blen(s_encode(qk.z)) >= 256, blen(qv.z) < 2 ** 32))
+            continue
         V.assume(z3.And(z3.Not(t.has[s_encode(qk.z)]), blen(s_encode(qk.z)) < 256, blen(qv.z) < 2 ** 32))
-        for qk2, _ in items[:n]:
+        for m, (qk2, _) in enumerate(items[:n]):
+            if doomed is not None and doomed[0] == m and doomed[1] == "dup-file":
+                pass
             V.assume(qk.z != qk2.z)
     if bufsize_kind == "default":
         b.fields["_bufsize"] = 131072
@@ -312,6 +360,61 @@ def _backend_put(V):
     else:
         V.ensure("post/queued:in-order", z3.BoolVal(q1[:len(q0)] == q0 and len(q1) == len(q0) + 1 and q1[-1][0] is key and q1[-1][1] is value))
         V.ensure("post/queued:usedmem", to_z3(b.fields["_usedmem"], "int") == newused)
+
+
+@P.unit(f"{BASE}.flush", name="backend.flush/get with a doomed queued write: the rejected write is dropped, nothing of it is visible, the queue is not poisoned",
+        functions=[f"{BASE}.flush", f"{BASE}.get", f"{BACKEND}._write", f"{BACKEND}._read"])
+def _backend_doomed(V):
+    I, st = V.I, V.st
+    doomed = V.choose([(0, "dup-file"), (1, "dup-file"), (1, "dup-queue"), (0, "oversize"), (1, "oversize")], "doomed")
+    via = V.choose(["flush", "get"], "via")
+    cell, h, F, ch, bof, b, items = session_state(V, 2, doomed=doomed)
+    t0 = U.toc_of(h)
+    had0 = t0.has
+    q0 = list(b.fields["_write_queue"].fields["items"])
+    di = doomed[0]
+    V.witness(lambda ev: {"op": "doomed-write", "doomed": list(doomed), "via": via, "signature": f"doomed/{doomed[1]}"})
+    V.cover()
+    key = items[di][0] if doomed[1] != "oversize" else items[1 - di][0]
+    if via == "flush":
+        out = V.method(b, "flush", [], qual=f"{BASE}.flush")
+    else:
+        out = V.method(b, "get", [key], qual=f"{BASE}.get")
+    q1 = list(b.fields["_write_queue"].fields["items"])
+    t1 = U.toc_of(h)
+    if via == "get" and out.returned:
+        # a value came back: it is the bytes of the one put that can succeed for this key -- never the rejected write's
+        kb = s_encode(key.z)
+        if doomed[1] == "dup-file":
+            exp = ch.Vv[ch.idx(kb)]
+        elif doomed[1] == "dup-queue":
+            exp = items[di - 1][1].z
+        else:
+            exp = items[1 - di][1].z
+        V.ensure("doomed/get-returns-only-the-bytes-of-the-successful-put", out.value.z == exp)
+    else:
+        V.ensure("doomed/get-returns-only-the-bytes-of-the-successful-put", z3.BoolVal(True))
+    V.ensure("doomed/the-rejected-write-raises", z3.BoolVal(not out.returned))
+    if out.returned:
+        return
+    # the rejected write is gone from the queue, writes queued after it are still queued in order, earlier ones are on file
+    V.ensure("doomed/rejected-write-dropped-later-writes-still-queued", z3.BoolVal(q1 == q0[di + 1:]))
+    for j in range(di):
+        V.ensure(f"doomed/earlier-write-{j}-is-on-file", t1.has[s_encode(items[j][0].z)])
+    kd = s_encode(items[di][0].z)
+    if doomed[1] == "oversize":
+        V.ensure("doomed/nothing-of-the-rejected-write-on-file", z3.Not(t1.has[kd]))
+    # the queue is not poisoned: flushing again succeeds and puts the remaining writes on file
+    out2 = V.method(b, "flush", [], qual=f"{BASE}.flush")
+    V.ensure("doomed/next-flush-succeeds", z3.BoolVal(out2.returned and len(b.fields["_write_queue"].fields["items"]) == 0))
+    if out2.returned:
+        t2 = U.toc_of(h)
+        for j in range(di + 1, 2):
+            V.ensure(f"doomed/later-write-{j}-reaches-the-file", t2.has[s_encode(items[j][0].z)])
+        if doomed[1] in ("dup-file", "dup-queue"):
+            g = V.method(h, "get", [SV(kd, "bytes")])
+            first = ch.Vv[ch.idx(kd)] if doomed[1] == "dup-file" else items[di - 1][1].z
+            V.ensure("doomed/the-key-still-reads-as-its-first-value", z3.BoolVal(False) if not g.returned else g.value.z == first)
 
 
 @P.unit(f"{BACKEND}.update_keys", name="backend.update_keys")
